@@ -121,6 +121,11 @@ def hostile(ctx):
             return rng.choice([tok.lower(), tok.title(), tok.swapcase(), tok + " ", " " + tok])
         if isinstance(desc, T.String):
             r = rng.random()
+            if desc.length and rng.random() < 0.12:
+                # over the limit by the length of entity TEXT: the stored value is e.g. 'xxxxxxxx&amp;' (supplied double-escaped);
+                # a limit check that decodes once more would count it as 'xxxxxxxx&'
+                k = rng.randint(max(0, desc.length - 3), desc.length)
+                return "x" * k + rng.choice(["&amp;amp;", "&amp;lt;", "&amp;quot;&amp;quot;", "&amp;nbsp;"])
             if r < 0.25:
                 # texts from a small shared pool, longer than many limits: a wide field accepts them, a narrow one must refuse
                 return POOL[rng.randrange(len(POOL))]
